@@ -222,4 +222,338 @@ theorem denote_bag_congr (pa : String) (q : Query) : ∀ (b : Bool) (s s' : List
           exact hr
       · cases hs
 
+/-! ## Part 2: the MATCH step.  Filters the planner stacks on a plan -/
+
+theorem filter_const_true {α} (l : List α) : l.filter (fun _ => true) = l := by
+  induction l with
+  | nil => rfl
+  | cons x xs ih => simp [List.filter_cons, ih]
+
+/-- the pushed-down equality conjuncts recorded for alias `x` hold on row `r` -/
+def pushedOK (x : String) (m : Preds) (r : Row) : Bool :=
+  match m.lookup x with
+  | some fields => fields.all fun kv => evalBool A env r (.cmp .eq (.prop x kv.1) kv.2)
+  | none => true
+
+def labelOK (x : String) (ls : List String) (r : Row) : Bool :=
+  ls.all fun l => evalBool A env r (.bool .or (.isNull (.var x)) (.hasLabel (.var x) l))
+
+theorem exec_applyFilters (P : Plan) (R : Table) (h : Exec.exec A env P = .ok R) (x : String) (m : Preds) :
+    Exec.exec A env (applyFilters P x m) = .ok (R.filter (pushedOK A env x m)) := by
+  unfold applyFilters pushedOK
+  cases hl : m.lookup x with
+  | none => simp [h, filter_const_true]
+  | some fields =>
+    cases hc : andChain (fields.map fun (kv : String × Expr) => Expr.cmp .eq (.prop x kv.1) kv.2) with
+    | none =>
+      have : fields = [] := by
+        have := (andChain_nil_iff _).mp hc
+        simpa using this
+      subst this
+      simp [andChain, h, filter_const_true]
+    | some e =>
+      have hc' : andChain (fields.map fun x_1 => match x_1 with | (k, v) => Expr.cmp CmpOp.eq (Expr.prop x k) v) = some e := hc
+      simp only [hc', Exec.exec, h, bind, Except.bind, pure, Except.pure]
+      congr 1
+      apply List.filter_congr
+      intro r _
+      rw [evalBool_andChain A env r _ e hc, List.all_map]
+      rfl
+
+theorem exec_applyLabelFilters (P : Plan) (R : Table) (h : Exec.exec A env P = .ok R) (x : String) (ls : List String) :
+    Exec.exec A env (applyLabelFilters P x ls) = .ok (R.filter (labelOK A env x ls)) := by
+  unfold applyLabelFilters labelOK
+  cases hc : andChain (ls.map fun l => Expr.bool .or (.isNull (.var x)) (.hasLabel (.var x) l)) with
+  | none =>
+    have : ls = [] := by
+      have := (andChain_nil_iff _).mp hc
+      simpa using this
+    subst this
+    simp [h, filter_const_true]
+  | some e =>
+    simp only [Exec.exec, h, bind, Except.bind, pure, Except.pure]
+    congr 1
+    apply List.filter_congr
+    intro r _
+    rw [evalBool_andChain A env r _ e hc, List.all_map]
+    rfl
+
+/-! ### what `extract_predicates` pushes down is implied by the WHERE it was extracted from -/
+
+theorem mem_insertSorted {β} (m : List (String × β)) (k : String) (v : β) (p : String × β)
+    (h : p ∈ insertSorted m k v) : p = (k, v) ∨ p ∈ m := by
+  induction m with
+  | nil => simp [insertSorted] at h; exact Or.inl h
+  | cons q rest ih =>
+    obtain ⟨k', v'⟩ := q
+    simp only [insertSorted] at h
+    split at h
+    · rcases List.mem_cons.mp h with h | h
+      · exact Or.inl h
+      · exact Or.inr h
+    · split at h
+      · rcases List.mem_cons.mp h with h | h
+        · exact Or.inl h
+        · exact Or.inr (List.mem_cons_of_mem _ h)
+      · rcases List.mem_cons.mp h with h | h
+        · exact Or.inr (h ▸ List.mem_cons_self)
+        · rcases ih h with h | h
+          · exact Or.inl h
+          · exact Or.inr (List.mem_cons_of_mem _ h)
+
+/-- every recorded conjunct holds on `r` -/
+def PredsHold (m : Preds) (r : Row) : Prop :=
+  ∀ x fields, m.lookup x = some fields → ∀ kv ∈ fields, evalBool A env r (.cmp .eq (.prop x kv.1) kv.2) = true
+
+theorem PredsHold.insert (m : Preds) (r : Row) (h : PredsHold A env m r) (x k : String) (v : Expr)
+    (hv : evalBool A env r (.cmp .eq (.prop x k) v) = true) : PredsHold A env (predsInsert m x k v) r := by
+  intro x' fields hl kv hkv
+  unfold predsInsert at hl
+  rw [lookup_insertSorted] at hl
+  by_cases hx : (x' == x) = true
+  · have hxx : x' = x := by simpa using hx
+    subst hxx
+    simp only [hx, ↓reduceIte, Option.some.injEq] at hl
+    subst hl
+    rcases mem_insertSorted _ k v kv hkv with rfl | hmem
+    · exact hv
+    · cases hm : m.lookup x' with
+      | none => simp [hm] at hmem
+      | some f0 =>
+        simp only [hm, Option.getD_some] at hmem
+        exact h x' f0 hm kv hmem
+  · simp only [hx, Bool.false_eq_true, ↓reduceIte] at hl
+    exact h x' fields hl kv hkv
+
+theorem PredsHold.nil (r : Row) : PredsHold A env [] r := by
+  intro x fields hl; simp [List.lookup] at hl
+
+/-- `=` of the value algebra is symmetric (true of every equality the engine implements; needed because
+    `extract_predicates` also accepts `<literal> = x.k`) -/
+def EqSymm (A : Algebra) : Prop := ∀ a b, A.cmp .eq a b = A.cmp .eq b a
+
+theorem extractPredicates_hold (hsym : EqSymm A) (r : Row) (w : Expr) :
+    ∀ m, evalBool A env r w = true → PredsHold A env m r → PredsHold A env (extractPredicates w m) r := by
+  induction w with
+  | bool op a b iha ihb =>
+    intro m hw hm
+    cases op with
+    | and =>
+      simp only [extractPredicates]
+      have := hw
+      rw [evalBool_and, Bool.and_eq_true] at this
+      exact ihb _ this.2 (iha _ this.1 hm)
+    | _ => simpa [extractPredicates] using hm
+  | cmp op a b _ _ =>
+    intro m hw hm
+    cases op with
+    | eq =>
+      have hw' : evalBool A env r (.cmp .eq b a) = true := by
+        simp only [evalBool, eval] at hw ⊢
+        rw [hsym]; exact hw
+      simp only [extractPredicates]
+      have chk : ∀ (l rr : Expr) (m : Preds), evalBool A env r (.cmp .eq l rr) = true → PredsHold A env m r →
+          PredsHold A env (match l, rr with
+            | .prop x k, .lit v => predsInsert m x k (.lit v)
+            | .prop x k, .param p => predsInsert m x k (.param p)
+            | _, _ => m) r := by
+        intro l rr m hlr hm
+        split
+        · exact PredsHold.insert A env m r hm _ _ _ hlr
+        · exact PredsHold.insert A env m r hm _ _ _ hlr
+        · exact hm
+      exact chk b a _ hw' (chk a b m hw hm)
+    | _ => simpa [extractPredicates] using hm
+  | _ => intro m _ hm; simpa [extractPredicates] using hm
+
+theorem pushedOK_of_hold (x : String) (m : Preds) (r : Row) (h : PredsHold A env m r) : pushedOK A env x m r = true := by
+  unfold pushedOK
+  cases hl : m.lookup x with
+  | none => rfl
+  | some fields =>
+    simp only [List.all_eq_true]
+    exact fun kv hkv => h x fields hl kv hkv
+
+/-! ### F1a, node patterns: `MATCH (a:L1:L2…)` as the first clause, then core clauses -/
+
+def scanRows (a : String) (l : Option String) : Table :=
+  (env.g.nodes.filter fun n => match l with | some l => n.labels.contains l | none => true).map
+    fun n => [(a, Val.node n.id)]
+
+/-- the plan `compile_pattern_chain` builds for a fresh single-node pattern without property map -/
+def nodePlan (a : String) (ls : List String) (preds : Preds) : Plan :=
+  let start : Plan := .nodeScan a ls.head?
+  let start := match ls.head?, (preds.lookup a).bind (·.head?) with
+    | some l, some (field, v) => Plan.indexSeek a l field v start
+    | _, _ => start
+  applyLabelFilters (applyFilters start a preds) a ls
+
+theorem compileChain_node (a : String) (ls : List String) (preds : Preds) (s : St) :
+    (compileChain none ⟨⟨some a, ls, []⟩, []⟩ preds [] s).1 = nodePlan a ls preds := by
+  unfold compileChain nodePlan
+  simp only [extendPreds, List.foldl_nil, compileChain.hops]
+  cases ls.head? with
+  | none => rfl
+  | some l =>
+    cases (preds.lookup a).bind (·.head?) with
+    | none => rfl
+    | some fv => rfl
+
+theorem exec_nodePlan (a : String) (ls : List String) (preds : Preds) :
+    Exec.exec A env (nodePlan a ls preds) =
+      .ok (((scanRows env a ls.head?).filter (pushedOK A env a preds)).filter (labelOK A env a ls)) := by
+  unfold nodePlan
+  apply exec_applyLabelFilters
+  apply exec_applyFilters
+  cases ls.head? with
+  | none => rfl
+  | some l =>
+    cases (preds.lookup a).bind (·.head?) with
+    | none => rfl
+    | some fv => obtain ⟨f, v⟩ := fv; rfl
+
+theorem outKinds_nodePlan (a : String) (ls : List String) (preds : Preds) :
+    outKinds (nodePlan a ls preds) = [(a, Kind.node)] := by
+  have h1 : ∀ P x m, outKinds (applyFilters P x m) = outKinds P := by
+    intro P x m; unfold applyFilters; split
+    · split <;> rfl
+    · rfl
+  have h2 : ∀ P x l, outKinds (applyLabelFilters P x l) = outKinds P := by
+    intro P x l; unfold applyLabelFilters; split <;> rfl
+  unfold nodePlan
+  rw [h2, h1]
+  cases ls.head? with
+  | none => rfl
+  | some l =>
+    cases (preds.lookup a).bind (·.head?) with
+    | none => rfl
+    | some fv =>
+      obtain ⟨f, v⟩ := fv
+      simp [outKinds, outKindsAcc, mergeKind, List.lookup, insertSorted]
+
+/-- the reference rows of the node pattern -/
+theorem spec_node_rows (hg : env.g.NodesDistinct) (a : String) (ls : List String) :
+    Spec.denoteMatch A env false [⟨⟨some a, ls, []⟩, []⟩] [[]] = (scanRows env a ls.head?).filter (labelOK A env a ls) := by
+  have h1 := scan_label_correct A env hg a ls []
+  rw [exec_applyLabelFilters A env (.nodeScan a ls.head?) (scanRows env a ls.head?) rfl a ls] at h1
+  have h1' := Except.ok.inj h1
+  rw [h1']
+  simp [Spec.denoteMatch, Spec.matches_, Spec.matchPats, List.flatMap_cons, List.map_flatMap]
+
+theorem bagClauses_core (q : Query) : ∀ b, bagClauses b q = true → coreClauses b q = true := by
+  induction q with
+  | nil => intro b h; cases b <;> simp [bagClauses] at h
+  | cons c rest ih =>
+    intro b h
+    cases c with
+    | match_ o ps => cases b <;> simp [bagClauses] at h
+    | where_ e => cases b <;> simp [bagClauses, coreClauses] at h ⊢; exact ih true h
+    | unwind e x => cases b <;> simp [bagClauses, coreClauses] at h ⊢ <;> exact ih true h
+    | with_ p w =>
+      cases w with
+      | some w => cases b <;> simp [bagClauses] at h
+      | none =>
+        cases b <;> simp [bagClauses, coreClauses, bagProj] at h ⊢ <;> exact ⟨h.1.1.1.1, ih true h.2⟩
+    | return_ p =>
+      cases rest with
+      | nil => cases b <;> simp [bagClauses, coreClauses, bagProj] at h ⊢ <;> exact h.1.1.1
+      | cons c' r' => cases b <;> simp [bagClauses] at h
+
+/-- predicates pushed down from the clause that follows the MATCH -/
+def predsOf (tail : Query) : Preds := match tail with | .where_ w :: _ => extractPredicates w [] | _ => []
+
+theorem compileClauses_nodeMatch (a : String) (ls : List String) (tail : Query) :
+    ∃ st, compileClauses (.match_ false [⟨⟨some a, ls, []⟩, []⟩] :: tail) {} =
+      compileClauses tail { plan := some (nodePlan a ls (predsOf tail)), st := st, pending := none } := by
+  have hm : ∀ preds, compileMatch none [⟨⟨some a, ls, []⟩, []⟩] preds {} =
+      .ok (compileChain none ⟨⟨some a, ls, []⟩, []⟩ preds [] {}) := by
+    intro preds
+    simp only [compileMatch, List.forIn_cons, List.forIn_nil, maybeReanchor, List.isEmpty_nil, ↓reduceIte,
+      validatePattern, bind, Except.bind, pure, Except.pure, List.lookup, boundAsNode, usesOuter, List.map_nil,
+      List.any_cons, List.any_nil, Bool.or_false, Bool.false_eq_true]
+  refine ⟨(compileChain none ⟨⟨some a, ls, []⟩, []⟩ (predsOf tail) [] {}).2, ?_⟩
+  have hpair : compileChain none ⟨⟨some a, ls, []⟩, []⟩ (predsOf tail) [] {} =
+      (nodePlan a ls (predsOf tail), (compileChain none ⟨⟨some a, ls, []⟩, []⟩ (predsOf tail) [] {}).2) := by
+    rw [← compileChain_node a ls (predsOf tail) {}]
+  cases tail with
+  | nil =>
+    simp only [compileClauses, bind, Except.bind, predsOf] at hpair ⊢
+    rw [hm, hpair]
+    simp
+  | cons c rest =>
+    cases c <;> simp only [compileClauses, bind, Except.bind, predsOf] at hpair ⊢ <;> rw [hm, hpair] <;>
+      simp only [Bool.false_eq_true, ↓reduceIte]
+
+/-- **C11 on F1a, node patterns** — `MATCH (a:L1:L2…)` followed by any core clauses (WHERE with its equality
+    conjuncts pushed down into the scan / an IndexSeek, UNWIND, WITH, RETURN with DISTINCT / SKIP / LIMIT): the
+    modelled engine returns exactly the reference's list of rows, or the same error. -/
+theorem f1a_node_refines (hsym : EqSymm A) (hg : env.g.NodesDistinct) (a : String) (ls : List String) (tail : Query)
+    (hc : coreClauses true tail = true)
+    (hs : Spec.WellScoped (.match_ false [⟨⟨some a, ls, []⟩, []⟩] :: tail)) :
+    Exec.run A env (.match_ false [⟨⟨some a, ls, []⟩, []⟩] :: tail) =
+      (Spec.denote A env (.match_ false [⟨⟨some a, ls, []⟩, []⟩] :: tail)).map Spec.Result.rows := by
+  obtain ⟨st, hcomp⟩ := compileClauses_nodeMatch a ls tail
+  unfold Spec.WellScoped at hs
+  have hs1 : (Spec.scopeAfter [a] tail).isSome = true := by
+    simpa [Spec.scopeAfter, Spec.patsOk, Spec.patVars] using hs
+  obtain ⟨s', hs'⟩ := Option.isSome_iff_exists.mp hs1
+  have hK : KOk (outKinds (nodePlan a ls (predsOf tail))) [a] := by
+    rw [outKinds_nodePlan]
+    intro v
+    by_cases hv : v = a
+    · subst hv; simp [List.lookup]
+    · have : (v == a) = false := by simpa using hv
+      simp [List.lookup, this, hv]
+  have hind := core_induction A env tail true
+    { plan := some (nodePlan a ls (predsOf tail)), st := st, pending := none } _ [a] s' hc hs' rfl (fun _ => rfl)
+    (exec_nodePlan A env a ls (predsOf tail)) hK
+  have hrun : Exec.run A env (.match_ false [⟨⟨some a, ls, []⟩, []⟩] :: tail) =
+      runLoop A env tail { plan := some (nodePlan a ls (predsOf tail)), st := st, pending := none } := by
+    unfold Exec.run compile runLoop
+    rw [hcomp]
+    rfl
+  rw [hrun, hind]
+  unfold Spec.denote
+  rw [if_pos hs]
+  have hspec : Spec.denoteClauses A env (.match_ false [⟨⟨some a, ls, []⟩, []⟩] :: tail) [[]] =
+      Spec.denoteClauses A env tail ((scanRows env a ls.head?).filter (labelOK A env a ls)) := by
+    rw [← spec_node_rows A env hg a ls]
+    cases tail with
+    | nil => simp [Spec.denoteClauses]
+    | cons c rest => cases c <;> simp [Spec.denoteClauses]
+  rw [hspec]
+  congr 1
+  -- the pushed-down conjuncts do not change what the tail computes
+  cases tail with
+  | nil => simp [coreClauses] at hc
+  | cons c rest =>
+    cases c with
+    | where_ w =>
+      simp only [Spec.denoteClauses, predsOf]
+      congr 1
+      rw [List.filter_filter, List.filter_filter, List.filter_filter]
+      apply List.filter_congr
+      intro r _
+      by_cases hw : evalBool A env r w = true
+      · have := pushedOK_of_hold A env a _ r
+          (extractPredicates_hold A env hsym r w [] hw (PredsHold.nil A env r))
+        simp [hw, this]
+      · simp [hw]
+    | match_ o ps => simp [coreClauses] at hc
+    | unwind e x =>
+      have : predsOf (Clause.unwind e x :: rest) = [] := rfl
+      rw [this]
+      have hp : pushedOK A env a [] = fun _ => true := by funext r; rfl
+      rw [hp, filter_const_true]
+    | with_ p w =>
+      have : predsOf (Clause.with_ p w :: rest) = [] := rfl
+      rw [this]
+      have hp : pushedOK A env a [] = fun _ => true := by funext r; rfl
+      rw [hp, filter_const_true]
+    | return_ p =>
+      have : predsOf (Clause.return_ p :: rest) = [] := rfl
+      rw [this]
+      have hp : pushedOK A env a [] = fun _ => true := by funext r; rfl
+      rw [hp, filter_const_true]
+
 end Nervus.Cy
